@@ -37,8 +37,6 @@ inductive Err
   | lmaxEmpty           -- ValueError "max() iterable argument is empty"  (Irreps.lmax of an all-zero-mul irreps)
   | epsNoNormalize      -- ValueError "epsilon and normalize = False don't make sense together"
   | epsInvalid          -- ValueError "epsilon .. is invalid, must be strictly positive"
-  | noneGtInt           -- TypeError  "'>' not supported between instances of 'NoneType' and 'int'"
-  | strNumIrreps        -- AttributeError "'str' object has no attribute 'num_irreps'"
   | assertion           -- AssertionError in a constructor
   | index               -- IndexError in a constructor
   | catEmpty            -- ValueError "torch.cat(): expected a non-empty list of Tensors"
@@ -50,7 +48,7 @@ def Err.name : Err → String
   | .actLen => "actLen" | .actNonScalar => "actNonScalar" | .actParity => "actParity"
   | .gateGates => "gateGates" | .gateScalars => "gateScalars" | .gateNum => "gateNum"
   | .lmaxEmpty => "lmaxEmpty" | .epsNoNormalize => "epsNoNormalize" | .epsInvalid => "epsInvalid"
-  | .noneGtInt => "noneGtInt" | .strNumIrreps => "strNumIrreps" | .assertion => "assertion"
+  | .assertion => "assertion"
   | .index => "index" | .catEmpty => "catEmpty" | .jitEmptyTuple => "jitEmptyTuple" | .runtime => "runtime"
 
 /-! ## Irreps layout -/
@@ -395,20 +393,21 @@ def gateFwd (irrepsScalars : Irreps) (actS : List (Option (Act K))) (irrepsGates
 
 /-! ## NormActivation -/
 
-/-- the `epsilon` branches of `NormActivation.__init__`; returns the stored `self.epsilon`.
-`irrepsIsStr`: the caller passed a string for `irreps_in` (the `bias` branch reads `irreps_in.num_irreps`
-from the raw argument). -/
-def normActCtor (normalize : Bool) (epsilon : Option K) (bias : Bool) (irrepsIsStr : Bool) :
+/-- the `epsilon` branches of `NormActivation.__init__` (tree with 2872ee3 and 11f82c3); returns the stored
+`self.epsilon`:
+  `if epsilon is None and normalize: epsilon = 1e-8`
+  `elif epsilon is not None and not normalize: raise ValueError`
+  `elif epsilon is not None and not epsilon > 0: raise ValueError`
+so `normalize = False` keeps `epsilon = None`.  `bias` and `irrepsIsStr` (the caller passed `irreps_in` as a `str`)
+are arguments of the constructor on which no branch depends any more (`self.irreps_in.num_irreps` is read from the
+converted `Irreps`); they are kept so that this can be stated. -/
+def normActCtor (normalize : Bool) (epsilon : Option K) (_bias : Bool) (_irrepsIsStr : Bool) :
     Except Err (Option K) :=
-  let eps : Except Err (Option K) :=
-    match epsilon, normalize with
-    | none, true => .ok (some (Scalar.ofFrac 1 100000000))                 -- epsilon = 1e-8
-    | some _, false => .error .epsNoNormalize
-    | none, false => .error .noneGtInt                                       -- `not None > 0`
-    | some e, true => if !(Scalar.lt Scalar.zero e) then .error .epsInvalid else .ok (some e)
-  match eps with
-  | .error e => .error e
-  | .ok r => if bias && irrepsIsStr then .error .strNumIrreps else .ok r
+  match epsilon, normalize with
+  | none, true => .ok (some (Scalar.ofFrac 1 100000000))                 -- epsilon = 1e-8
+  | some _, false => .error .epsNoNormalize
+  | none, false => .ok none
+  | some e, true => if !(Scalar.lt Scalar.zero e) then .error .epsInvalid else .ok (some e)
 
 /-- `norms[norms < eps²] = eps²; norms = norms.sqrt()` when `self._eps_squared > 0` (the norms are then squared norms) -/
 def clampNorms (epsilon : Option K) (norms0 : List K) : List K :=
@@ -425,7 +424,7 @@ def normActScalings (phi : K → K) (normalize : Bool) (bias : Option (List K)) 
   let scal0 := arg.map phi
   if normalize then List.zipWith (· / ·) scal0 norms else scal0
 
-/-- `NormActivation.forward` for a stored `epsilon` (`none` can only be reached by building the module by hand):
+/-- `NormActivation.forward` for a stored `epsilon` (`none` exactly when `normalize = False`):
 `Norm(irreps_in, squared=(epsilon is not None))`, clamp, nonlinearity, optional division,
 `scalar_multiplier(scalings, features)` -/
 def normActFwd (irreps : Irreps) (phi : K → K) (normalize : Bool) (epsilon : Option K)
